@@ -3,7 +3,7 @@ import sys
 
 from sim import runner, wire
 from sim.driver import Driver
-from sim.models import DupGuard
+from sim.models import GuardSet
 from sim.net import FaultConfig
 from sim.svc import ENUM, SvcRecords, gen_services
 from sim.world import World
@@ -239,16 +239,15 @@ def execute(scenario, seed, overrides=None):
                 else:
                     reg.unregister(arg)
 
-        guards = {}
+        guards = GuardSet()
 
         def on_rx(t, rsock, data, addr, tx_idx, copy):
             if rsock.owner.name != "R":
                 return
-            g = guards.setdefault(rsock.label, DupGuard())
-            if len(data) > wire.MAX_ABS or g.suppressed(data, t * 1000.0):
+            if len(data) > wire.MAX_ABS or not guards.check(rsock.label, data, t * 1000.0):
                 return
             msg = wire.try_decode(data)
-            g.accept(data, t * 1000.0, bool(msg and any(q.qu for q in msg.questions)))
+            guards.accept(rsock.label, data, t * 1000.0, bool(msg and any(q.qu for q in msg.questions)))
             if msg is None or msg.is_response or addr[1] != 5354:
                 return
             apply_api()
